@@ -1,6 +1,7 @@
 package seqx
 
 import (
+	"runtime"
 	"unsafe"
 
 	"github.com/flowmatters/openwater-core/data"
@@ -43,7 +44,9 @@ func CBackend[T Number, CT Number, A ND[T, A]](typ string, ctor func(unsafe.Poin
 	return &Backend[T, A]{Name: "c", Type: typ, GoBacked: false, Scale: scale, AddTo: addTo, Func1: func1,
 		New: func(vals []T, dims []int) *Root[T, A] {
 			n := len(vals)
-			buf := make([]CT, n+2*margin)
+			var one CT
+			mem := cAlloc(uintptr(n+2*margin) * unsafe.Sizeof(one))
+			buf := unsafe.Slice((*CT)(mem), n+2*margin)
 			for i := range buf {
 				buf[i] = guard
 			}
@@ -51,6 +54,7 @@ func CBackend[T Number, CT Number, A ND[T, A]](typ string, ctor func(unsafe.Poin
 				buf[margin+i] = CT(v)
 			}
 			r := &Root[T, A]{Arr: ctor(unsafe.Pointer(&buf[margin]), dims)}
+			runtime.SetFinalizer(r, func(*Root[T, A]) { cFree(mem) })
 			r.Raw = func() []T {
 				out := make([]T, n)
 				for i := range out {
